@@ -138,3 +138,5 @@ pub trait SpliceVec<T> { spec fn sp_view(&self) -> Seq<T>;
             r.removed@ == old(self).sp_view().subrange(range.start as int, range.end as int); }
 impl<T> SpliceVec<T> for Vec<T> { open spec fn sp_view(&self) -> Seq<T> { self@ }
     #[verifier::external_body] fn splice_v(&mut self, range: core::ops::Range<usize>, items: Vec<T>) -> (r: SpliceV<T>) { unimplemented!() } }
+// Rust guarantees that no allocation (hence no Vec) has more than isize::MAX elements/bytes
+pub axiom fn axiom_vec_len_bound<T>(v: &Vec<T>) ensures v@.len() <= isize::MAX;
